@@ -117,12 +117,58 @@ def import_target():
     return basic_robotics
 
 
+class Reach:
+    """Which functions of the tree under test were entered during this shard (sys.monitoring PY_START, first shard of a run only).
+
+    Interpreted code only: a kernel that runs compiled leaves no trace here (its callers do).  Evidence, never a verdict."""
+    TOOL = 3
+
+    def __init__(self, root):
+        self.root = os.path.join(root, "basic_robotics") + os.sep
+        self.counts = {}
+        self.on = False
+
+    def start(self):
+        mon = getattr(sys, "monitoring", None)
+        if mon is None:
+            return
+        try:
+            mon.use_tool_id(self.TOOL, "vmon-reach")
+        except ValueError:
+            return
+        counts, root, DISABLE = self.counts, self.root, mon.DISABLE
+
+        def py_start(code, offset):
+            fn = code.co_filename
+            if not fn.startswith(root):
+                return DISABLE
+            k = fn[len(root):] + ":" + code.co_qualname
+            counts[k] = counts.get(k, 0) + 1
+        mon.register_callback(self.TOOL, mon.events.PY_START, py_start)
+        mon.set_events(self.TOOL, mon.events.PY_START)
+        self.on = True
+
+    def stop(self, ctx):
+        if not self.on:
+            return
+        mon = sys.monitoring
+        mon.set_events(self.TOOL, 0)
+        mon.register_callback(self.TOOL, mon.events.PY_START, None)
+        mon.free_tool_id(self.TOOL)
+        top = sorted(self.counts.items(), key=lambda kv: -kv[1])
+        ctx.extra["reach_functions_entered"] = {"count": len(top), "calls": int(sum(v for _, v in top))}
+        ctx.extra["reach_calls"] = {k: int(v) for k, v in top[:200]}
+
+
 def main(argv):
     prop, spec_path, out_dir = argv[1], argv[2], argv[3]
     faulthandler.enable()
     with open(spec_path) as f:
         spec = json.load(f)
     ctx = Ctx(prop, spec)
+    reach = Reach(repo_root())
+    if int(spec.get("shard", 0)) == 0 and os.environ.get("VERIF_REACH", "1") != "0" and spec.get("replay") is None:
+        reach.start()
     mod = __import__("vmon.props." + prop.lower(), fromlist=["x"])
     status = "ok"
     try:
@@ -134,6 +180,10 @@ def main(argv):
         status = "harness_error"
         ctx.inconc("worker exception: %s: %s" % (type(e).__name__, e))
         ctx.notes.append(traceback.format_exc())
+    try:
+        reach.stop(ctx)
+    except Exception as e:
+        ctx.notes.append("reach recorder: %r" % e)
     res = ctx.result()
     res["status"] = status
     np.save(os.path.join(out_dir, "hashes.npy"), np.fromiter(ctx.hashes, dtype=np.int64, count=len(ctx.hashes)))
